@@ -147,3 +147,30 @@ def bfloat_spec(C, f, big_endian):
     V32 = enc_float(C, f, 32, True)
     top = sub(V32, 0, 16)
     return mk_store(C, top if big_endian else floats.byterev_view(top))
+
+
+# ---- pack with float tokens (bounded: format strings and struct are outside the prover).  The inputs of one shape are evaluated
+# ---- one after the other in one process, so a memoising helper that confuses equal-but-distinguishable values (0.0 / -0.0 / 0,
+# ---- 1 / 1.0 / True) shows up as a wrong encoding of the later one.
+def _pack_float_shapes():
+    out = []
+    for tok, n, be in (('float:32', 32, True), ('floatle:64', 64, False), ('float:16', 16, True), ('floatbe:64', 64, True), ('floatle:32', 32, False)):
+        def build(S, interp, tok=tok):
+            return [tok, S.raw('v')], {}
+
+        def real(vals, tok=tok):
+            return [tok, vals['v']], {}
+
+        def gen(rng):
+            from pyvc.bounded import FLOAT_BOUNDARY
+            return {'v': rng.choice(FLOAT_BOUNDARY + [0.0, -0.0, 0, 0.0, -0.0, 1, 1.0, True, False, -1, -1.0, rng.uniform(-1e3, 1e3)])}
+        out.append(Shape(tok, build, real, gen=gen, stable=False, bounded_only=True))
+    return out
+
+
+@contract('methods.pack@float', target='methods.pack', shapes=_pack_float_shapes(), props={'C02', 'C05', 'C09'}, kind='public',
+          note="pack('float:n', v): exactly the struct encoding of float(v) -- whatever was packed before  (BOUNDED)")
+def pack_float_spec(C, fmt, v):
+    name, _, ln = fmt.partition(':')
+    be = not name.endswith('le')
+    return mk_bits(C, C.cls('BitStream'), enc_float(C, float(v), int(ln), be), pos=0)
